@@ -14,6 +14,7 @@ For a combinator `K`:
                   provided the inputs' hints do (`HintOk`).
 -/
 import HvPull.Model.Pull
+import HvPull.Gen.PullTables
 
 namespace HvPull
 open List
@@ -1300,6 +1301,135 @@ theorem cross_sizeHint (h1 : Src α → Hint) (hh1 : HintOk h1) (st : CrossSt α
     have := u1 u hu
     simp only [crossSpec]
     cases items single <;> simp <;> omega
+
+/-! ### the match tables of Zip / ZipLongest / CrossSingleton, regenerated from the Rust source -/
+
+def kindOf : Step α → Gen.K
+  | .ready _ => .ready
+  | .pending => .pending
+  | .ended => .ended
+
+/-- what a zip step did, read off its answer and the buffer it left -/
+def zipActOf (r : ZipSt α β × Step (α × β)) : Gen.Act :=
+  match r.2, r.1.buf with
+  | .ready _, _ => .both
+  | .pending, some (.inl _) => .bufLeft
+  | .pending, some (.inr _) => .bufRight
+  | .pending, none => .pending
+  | .ended, _ => .ended
+
+def zipLongestActOf (r : ZipSt α β × Step (EOB α β)) : Gen.Act :=
+  match r.2, r.1.buf with
+  | .ready (.both _ _), _ => .both
+  | .ready (.left _), _ => .left
+  | .ready (.right _), _ => .right
+  | .pending, some (.inl _) => .bufLeft
+  | .pending, some (.inr _) => .bufRight
+  | .pending, none => .pending
+  | .ended, _ => .ended
+
+/-- the model's `Zip::pull` takes, for every pair of answers, the arm the Rust `match` takes -/
+theorem zip_table_matches_source (st : ZipSt α β) :
+    zipActOf (zipStep st) = Gen.zipTable (kindOf (zipPulls st).1.2) (kindOf (zipPulls st).2.2) := by
+  obtain ⟨l, r, buf⟩ := st
+  rcases buf with _ | a | b <;> rcases l with _ | ⟨(x | _ | _), l⟩ <;> rcases r with _ | ⟨(y | _ | _), r⟩ <;> rfl
+
+theorem zipLongest_table_matches_source (st : ZipSt α β) :
+    zipLongestActOf (zipLongestStep st) =
+      Gen.zipLongestTable (kindOf (zipPulls st).1.2) (kindOf (zipPulls st).2.2) := by
+  obtain ⟨l, r, buf⟩ := st
+  rcases buf with _ | a | b <;> rcases l with _ | ⟨(x | _ | _), l⟩ <;> rcases r with _ | ⟨(y | _ | _), r⟩ <;> rfl
+
+/-- singleton side of `CrossSingleton::pull` (only consulted while no value is stored) -/
+theorem cross_single_table_matches_source (st : CrossSt α β) (h : st.state = none) :
+    (match (crossStep st).1.state, (crossStep st).2 with
+      | some _, _ => Gen.Act.store
+      | none, .pending => .pending
+      | none, _ => .ended) = Gen.crossSingleTable (kindOf st.single.pull.2) := by
+  obtain ⟨item, single, state⟩ := st
+  simp only at h; subst h
+  rcases single with _ | ⟨(y | _ | _), s⟩ <;> rcases item with _ | ⟨(x | _ | _), i⟩ <;> rfl
+
+/-- item side, once a singleton value `v` is stored -/
+theorem cross_item_table_matches_source (st : CrossSt α β) (v : β) (h : st.state = some v) :
+    (match (crossStep st).2 with
+      | .ready _ => Gen.Act.ready
+      | .pending => .pending
+      | .ended => .ended) = Gen.crossItemTable (kindOf st.item.pull.2) := by
+  obtain ⟨item, single, state⟩ := st
+  simp only at h; subst h
+  rcases item with _ | ⟨(x | _ | _), i⟩ <;> rfl
+
+/-! ### accumulate_all: per key, the values folded in arrival order -/
+
+variable {κ ν ω : Type} [DecidableEq κ]
+
+/-- `HashMap::get` on the association-list model -/
+def tblGet : List (κ × ω) → κ → Option ω
+  | [], _ => none
+  | (k', a) :: t, k => if k' = k then some a else tblGet t k
+
+theorem aux_tblUpsert_get (k k' : κ) (ins : Unit → ω) (upd : ω → ω) (t : List (κ × ω)) :
+    tblGet (tblUpsert k ins upd t) k' =
+      if k = k' then some (match tblGet t k with | some a => upd a | none => ins ()) else tblGet t k' := by
+  induction t with
+  | nil => simp [tblUpsert, tblGet]
+  | cons e r ih =>
+    obtain ⟨k0, a⟩ := e
+    by_cases h0 : k0 = k
+    · subst h0
+      by_cases h1 : k0 = k' <;> simp [tblUpsert, tblGet, h1]
+    · by_cases h1 : k = k'
+      · subst h1; simp [tblUpsert, tblGet, h0, ih]
+      · by_cases h2 : k0 = k'
+        · subst h2; simp [tblUpsert, tblGet, h0, h1]
+        · simp [tblUpsert, tblGet, h0, h1, h2, ih]
+
+/-- one accumulator step on the value stored for a key (`None` = vacant entry) -/
+def accStep (ins : ν → ω) (upd : ω → ν → ω) (o : Option ω) (v : ν) : Option ω :=
+  some (match o with | some a => upd a v | none => ins v)
+
+/-- all three accumulators are `entry(k)`-upserts; folding arrivals into the map stores, for each
+key, the fold of that key's values in arrival order -/
+theorem accumulate_groups_by_key (ins : ν → ω) (upd : ω → ν → ω) (its : List (κ × ν)) (t : List (κ × ω)) (k : κ) :
+    tblGet (its.foldl (fun t kv => tblUpsert kv.1 (fun _ => ins kv.2) (fun a => upd a kv.2) t) t) k =
+      ((its.filter (fun kv => kv.1 = k)).map Prod.snd).foldl (accStep ins upd) (tblGet t k) := by
+  induction its generalizing t with
+  | nil => rfl
+  | cons kv its ih =>
+    obtain ⟨k0, v⟩ := kv
+    rw [foldl_cons, ih, aux_tblUpsert_get]
+    by_cases h : k0 = k
+    · subst h; simp [accStep]
+    · simp [h]
+
+/-- `Fold`: `init()` then `fold_fn` per value -/
+theorem accFold_spec (init : ω) (f : ω → ν → ω) (its : List (κ × ν)) (k : κ) :
+    tblGet (its.foldl (accFold init f) []) k =
+      ((its.filter (fun kv => kv.1 = k)).map Prod.snd).foldl (accStep (f init) f) none :=
+  accumulate_groups_by_key (f init) f its [] k
+
+/-- `Reduce`: first value, then `reduce_fn` -/
+theorem accReduce_spec (f : ν → ν → ν) (its : List (κ × ν)) (k : κ) :
+    tblGet (its.foldl (accReduce f) []) k =
+      ((its.filter (fun kv => kv.1 = k)).map Prod.snd).foldl (accStep id f) none :=
+  accumulate_groups_by_key id f its [] k
+
+/-- `FoldFrom`: `init_fn(first value)`, then `fold_fn` -/
+theorem accFoldFrom_spec (init : ν → ω) (f : ω → ν → ω) (its : List (κ × ν)) (k : κ) :
+    tblGet (its.foldl (accFoldFrom init f) []) k =
+      ((its.filter (fun kv => kv.1 = k)).map Prod.snd).foldl (accStep init f) none :=
+  accumulate_groups_by_key init f its [] k
+
+/-- `AccumulateAll` polled to completion under any pending placement -/
+theorem accumulateAll_refines (ins : ν → ω) (upd : ω → ν → ω) (s : Src (κ × ν)) (t : List (κ × ω)) (n : Nat)
+    (h : s.length < n) (k : κ) :
+    (driveFut (fun t kv => tblUpsert kv.1 (fun _ => ins kv.2) (fun a => upd a kv.2) t) n s t).map (tblGet · k) =
+      some (((items s |>.filter (fun kv => kv.1 = k)).map Prod.snd).foldl (accStep ins upd) (tblGet t k)) := by
+  rw [fold_refines _ s t n h]; simp [accumulate_groups_by_key]
+
+example : tblGet ([(1, 5), (2, 7), (1, 6)].foldl (accReduce (fun a v : Nat => a * 10 + v)) []) 1 = some 56 := by
+  decide
 
 /-! ### non-vacuity: concrete instances of the hypotheses and of the statements -/
 
